@@ -27,7 +27,8 @@ type reseq struct {
 	buf     types.Object // the map
 	drain   *ast.ForStmt
 	index   int
-	then    []ast.Stmt // then-branch with calls of parameterless local closures inlined
+	then    []ast.Stmt // in-order branch with calls of parameterless local closures inlined
+	store   *ast.BlockStmt // branch that parks an early item
 }
 
 func (r *reseq) key() string { return fmt.Sprintf("%s:reseq#%d", funcName(r.pkg, r.fd), r.index) }
@@ -59,7 +60,16 @@ func findResequencers(c *Ctx) []*reseq {
 				return true
 			}
 			cond, ok := ast.Unparen(ifs.Cond).(*ast.BinaryExpr)
-			if !ok || cond.Op != token.EQL {
+			if !ok || (cond.Op != token.EQL && cond.Op != token.NEQ) {
+				return true
+			}
+			// number == next {emit} else {park}   or the inverted form   number != next {park} else {emit}
+			emitBlock, _ := ast.Stmt(ifs.Body).(*ast.BlockStmt)
+			storeBlock, _ := ifs.Else.(*ast.BlockStmt)
+			if cond.Op == token.NEQ {
+				emitBlock, storeBlock = storeBlock, emitBlock
+			}
+			if emitBlock == nil || storeBlock == nil {
 				return true
 			}
 			item, cnt := orderOperand(cond.X), cond.Y
@@ -76,7 +86,7 @@ func findResequencers(c *Ctx) []*reseq {
 			}
 			// else branch stores into a map
 			var buf types.Object
-			if eb, ok := ifs.Else.(*ast.BlockStmt); ok {
+			if eb := storeBlock; eb != nil {
 				for _, st := range eb.List {
 					if as, ok := st.(*ast.AssignStmt); ok && len(as.Lhs) == 1 {
 						if ix, ok := as.Lhs[0].(*ast.IndexExpr); ok {
@@ -97,7 +107,7 @@ func findResequencers(c *Ctx) []*reseq {
 			// the counter must be incremented in the then-branch (calls of parameterless local closures inlined)
 			hasInc := false
 			var drain *ast.ForStmt
-			then := inlineLocalCalls(info, defs, ifs.Body.List)
+			then := inlineLocalCalls(info, defs, emitBlock.List)
 			for _, st := range then {
 				if inc, ok := st.(*ast.IncDecStmt); ok {
 					if id, ok := inc.X.(*ast.Ident); ok && info.ObjectOf(id) == next {
@@ -112,7 +122,7 @@ func findResequencers(c *Ctx) []*reseq {
 				return true
 			}
 			n++
-			r := &reseq{pkg: p, fd: fd, ifs: ifs, next: next, item: item, buf: buf, drain: drain, index: n, then: then}
+			r := &reseq{pkg: p, fd: fd, ifs: ifs, next: next, item: item, buf: buf, drain: drain, index: n, then: then, store: storeBlock}
 			r.itemObj = rootObj(info, item)
 			out = append(out, r)
 			return true
@@ -443,7 +453,7 @@ func runW1(c *Ctx, s *Sink) {
 		}
 		// else-branch stores under the item's own number
 		storeOK := false
-		if eb, ok := r.ifs.Else.(*ast.BlockStmt); ok {
+		if eb := r.store; eb != nil {
 			for _, st := range eb.List {
 				if as, ok := st.(*ast.AssignStmt); ok && len(as.Lhs) == 1 && len(as.Rhs) == 1 {
 					if ix, ok := as.Lhs[0].(*ast.IndexExpr); ok {
@@ -455,7 +465,7 @@ func runW1(c *Ctx, s *Sink) {
 			}
 		}
 		if !storeOK {
-			s.Fail(props, key, r.ifs.Else.Pos(), "an early item is not stored under its own number")
+			s.Fail(props, key, r.store.Pos(), "an early item is not stored under its own number")
 			continue
 		}
 		// counter initial value 0
